@@ -50,10 +50,10 @@ CHECKS = {
   design="DESIGN.md §6 C07"),
  "C08": dict(
   category="model_checking",
-  text="Histories in which nearly every uplink is answered by an authentic Class A downlink with a MAC-command stream (FOpts or port 0, blocks and mixtures, boundary/random/reserved field values). For each accepted downlink the spec derives the answer shape (order, LinkADR block multiplicity, whole commands, truncation at 15 bytes only at the tail, stickiness) and compares it byte for byte with the device's pending answers and next uplinks; answer bits are read from the device and the post-state snapshot must be exactly the commanded effect for full acceptance and exactly the pre-state otherwise; requests on the closed invalid list must not be fully accepted.",
+  text="Histories in which nearly every uplink is answered by an authentic Class A downlink with a MAC-command stream (FOpts or port 0, blocks and mixtures, boundary/random/reserved field values). For each accepted downlink the spec derives the answer shape (order, LinkADR block multiplicity, whole commands, truncation at 15 bytes only at the tail, stickiness) and compares it byte for byte with the device's pending answers and next uplinks; answer bits are read from the device and the post-state snapshot must be exactly the commanded effect for full acceptance and exactly the pre-state otherwise; requests on the closed invalid list must not be fully accepted. Design level: MCMacCmd.tla model-checks every sequence of <= MaxDown accepted downlinks over a request alphabet with reserved and out-of-range values on the real EU868/US915 tables (invalid never fully acked, rejected changed nothing, accepted LinkADR leaves a transmittable plan, pending answers well-formed and sticky, join channels read-only, parameters legal). Specification -> implementation: one behaviour per reachable design state, generated by TLC (MCMacCmdGen.tla), executed on the real nb/async devices and validated by MacTrace.tla.",
   note='Trusted: Mac.tla (intended MAC behaviour, DESIGN Appendix B), Regions.tla (regional tables; disputed entries take the laxer reading), Codec.tla/Aes.tla/Cmac.tla (decide authenticity of every delivered frame and decode every uplink), TLC, the scripted radios/timer/RNG of the harness (no oracle logic). Histories are seeded-random (VERIF_SEED), not exhaustive; the exhaustive part is the named MC config over scaled-down constants.',
-  technique="explicit TLA+ specification (Mac.tla, Regions.tla, Codec.tla) checked with TLC: " + 'MacTrace.tla' + "; implementation traces validated against it",
-  design="DESIGN.md §6 C08"),
+  technique="explicit TLA+ specification (Mac.tla, Regions.tla, Codec.tla, MCMacCmd.tla) checked with TLC: MacTrace.tla trace validation of recorded implementation behaviour; MCMacCmd.tla model checking; TLC-generated behaviours (MCMacCmdGen.tla) replayed into the implementation",
+  design="DESIGN.md §6 C08, §13.2"),
  "C09": dict(
   category="model_checking",
   text="Every tx call of every history (9 regions, 4 (max power, gain) boards, join-bias settings, CFLists, LinkADRReq, NewChannelReq, ADR back-off) is checked against Mac!TxChoices computed from the specification's own channel plan (defined and enabled channel, in band, data rate defined and of the channel's bandwidth class, join channels/data rates) and against Mac!MaxTxPower = min(radio max, max EIRP - gain, commanded).",
@@ -68,10 +68,10 @@ CHECKS = {
   design="DESIGN.md §6 C10"),
  "C11": dict(
   category="model_checking",
-  text='Join-heavy histories (35% re-joins from a joined state; JoinAccepts enumerating every DLSettings byte, RxDelay 0..15 with 0/1 over-represented, CFList type 0/1/RFU/none with boundary frequencies and masks; wrong key, bit-flipped, truncated; arriving in RX1, RX2 or never). JoinRequest bytes must equal Codec!JoinRequestBytes for the DevNonce drawn; the device must join exactly on Codec!JoinAcceptOk and then hold the keys Codec.tla derives (two AES blocks evaluated by TLC), the assigned address, restarted counters and the regional rules for RxDelay / DLSettings / CFList.',
+  text='Join-heavy histories (35% re-joins from a joined state; JoinAccepts enumerating every DLSettings byte, RxDelay 0..15 with 0/1 over-represented, CFList type 0/1/RFU/none with boundary frequencies and masks; wrong key, bit-flipped, truncated; arriving in RX1, RX2 or never). JoinRequest bytes must equal Codec!JoinRequestBytes for the DevNonce drawn; the device must join exactly on Codec!JoinAcceptOk and then hold the keys Codec.tla derives (two AES blocks evaluated by TLC), the assigned address, restarted counters and the regional rules for RxDelay / DLSettings / CFList. Design level: MCJoin.tla model-checks every sequence of <= 2 join attempts (accepted in RX1/RX2 with each JoinAccept of an alphabet incl. invalid DLSettings, RxDelay 0, CFLists of the wrong/RFU type, zero masks, out-of-band frequencies; or not accepted: nothing / forged / data frame) with a parameter-changing request in between (joined only by a valid accept, session restarted, accept applied-when-valid/else previous value kept, join channels read-only, channels in band). Specification -> implementation: the behaviours TLC generates from MCJoin (kept apart by the previous accept and request) are executed on the real nb/async devices and validated by MacTrace.tla.',
   note='Trusted: Mac.tla (intended MAC behaviour, DESIGN Appendix B), Regions.tla (regional tables; disputed entries take the laxer reading), Codec.tla/Aes.tla/Cmac.tla (decide authenticity of every delivered frame and decode every uplink), TLC, the scripted radios/timer/RNG of the harness (no oracle logic). Histories are seeded-random (VERIF_SEED), not exhaustive; the exhaustive part is the named MC config over scaled-down constants.',
-  technique="explicit TLA+ specification (Mac.tla, Regions.tla, Codec.tla) checked with TLC: " + 'MacTrace.tla' + "; implementation traces validated against it",
-  design="DESIGN.md §6 C11"),
+  technique="explicit TLA+ specification (Mac.tla, Regions.tla, Codec.tla, MCJoin.tla) checked with TLC: MacTrace.tla trace validation of recorded implementation behaviour; MCJoin.tla model checking; TLC-generated behaviours of MCJoin replayed into the implementation",
+  design="DESIGN.md §6 C11, §13.2"),
  "C12": dict(
   category="model_checking",
   text="MCAdr.cfg explores all interleavings of silent/answered uplinks, confirmed and Class C downlinks, ADR toggles and data-rate overrides with ADR_ACK_LIMIT 2 / DELAY 1 in a region with a data-rate gap; ghost variables restate the property and must equal the MAC's bits and data rate. Trace validation with the real constants: long histories with few downlinks; every uplink's MType, DevAddr, ADR, ADRACKReq and ACK bits are decoded from the transmitted bytes and compared with Mac!UplinkFields, the ADR counter and data rate after every call with Mac!AfterRx2Complete.",
